@@ -49,6 +49,7 @@ struct World {
 	std::vector<Region> regions;
 	int maps = 0, unmaps = 0;
 	size_t skew = 0;
+	bool poisoning = false;              // the policy has poison hooks: fresh mappings start poisoned
 };
 static World W;
 
@@ -67,6 +68,7 @@ static uintptr_t arena_map(size_t len, size_t align) {
 			W.regions.push_back({cand, len});
 			AUNPOISON((void *)cand, len);
 			memset((void *)cand, 0, len);
+			if(W.poisoning) APOISON((void *)cand, len);
 			return cand;
 		}
 	}
@@ -88,10 +90,17 @@ static void arena_unmap(uintptr_t base, size_t len) {
 	if(err == 1) vs_fail("C03", "protocol:unmap-wrong-length", "unmap with a length different from the mapped one");
 	if(err == 2) vs_fail("C03", "protocol:unmap-unknown-base", "unmap of a region that is not mapped");
 }
-template<bool Aligned>
+template<bool Aligned, bool Poison = false>
 struct Policy {
 	static constexpr size_t pagesize = 256, slabsize = 4096, sb_size = 4096;
 	static constexpr int num_buckets = 8;
+	// KASAN-style hooks, backed by ASan's manual poisoning: a thread that touches a poisoned byte of a block it owns is an
+	// ASan report in that schedule (in the ThreadSanitizer build the hooks only select the pool's poisoning code path)
+	// Each hook is a scheduling point: the pool calls it without holding a lock, so another thread may run right there.
+	static inline int hook_word = 0;
+	void poison(void *p, size_t n) requires Poison { vs_point(VS_STORE, &hook_word); APOISON(p, n); }
+	void unpoison(void *p, size_t n) requires Poison { vs_point(VS_STORE, &hook_word); AUNPOISON(p, n); }
+	void unpoison_expand(void *p, size_t n) requires Poison { vs_point(VS_STORE, &hook_word); AUNPOISON(p, n); }
 	uintptr_t map(size_t len, size_t align) requires Aligned { return arena_map(len, align); }
 	uintptr_t map(size_t len) requires (!Aligned) { return arena_map(len, 4096); }
 	void unmap(uintptr_t b, size_t l) { arena_unmap(b, l); }
@@ -106,11 +115,11 @@ struct Blk { uintptr_t p = 0; size_t req = 0, size = 0; int owner = -1; };
 // C01 quantifies over interleaved histories too: when this harness runs for C01, the block-validity oracles report under C01
 static const char *P01() { return wanted_prop() == "C01" ? "C01" : "C05"; }
 
-template<bool Aligned, class Mx = VMutex>
+template<bool Aligned, class Mx = VMutex, bool Poison = false>
 struct MtHarness {
-	using Pool = frg::slab_pool<Policy<Aligned>, Mx>;
+	using Pool = frg::slab_pool<Policy<Aligned, Poison>, Mx>;
 	Script sc; size_t skew;
-	Policy<Aligned> policy;
+	Policy<Aligned, Poison> policy;
 	alignas(64) unsigned char pool_store[sizeof(Pool)];
 	Blk slots[VS_MAX_THREADS + 1][8];      // per thread (+ setup) slots
 	std::vector<Blk> live;                  // every live block of every thread
@@ -125,7 +134,7 @@ struct MtHarness {
 
 	void setup() {
 		AUNPOISON(arena, ARENA);
-		W.regions.clear(); W.maps = W.unmaps = 0; W.skew = skew;
+		W.regions.clear(); W.maps = W.unmaps = 0; W.skew = skew; W.poisoning = Poison;
 		APOISON(arena, ARENA);
 		memset(pool_store, 0, sizeof pool_store); new(pool_store) Pool(policy);
 		for(auto &row : slots) for(auto &b : row) b = Blk{};
@@ -289,6 +298,11 @@ static std::vector<Instance> instances(const std::string &tier) {
 	add("H7-full-slab-refill", B, mkscript({{F_(100), A_(0, 1024)}, {F_(101), A_(1, 600)}}, {A_(0, 1024), A_(1, 1024), A_(2, 1024)}));
 	// H11: a free into a partial slab against two allocations from it (the freed block must not be linked in front of a block that is being handed out)
 	add("H11-free-vs-allocate-same-slab", B, mkscript({{F_(100)}, {A_(0, 1024), A_(1, 1024)}}, {A_(0, 1024), A_(1, 1024), F_(1)}));
+	// H12/H13: the same races under a poisoning policy: a block is poisoned by the thread that frees it and unpoisoned by the
+	// thread that gets it next; the two must not cross
+	{ SchedOptions o; o.bound = B; o.horizon = 4000;
+	  v.push_back(sched_instance<MtHarness<true, VMutex, true>>("H12-poisoning-free-vs-allocate-same-slab-b" + std::to_string(B), o, mkscript({{F_(100)}, {A_(0, 1024), A_(1, 1024)}}, {A_(0, 1024), A_(1, 1024), F_(1)}), (size_t)0));
+	  v.push_back(sched_instance<MtHarness<true, VMutex, true>>("H13-poisoning-cross-thread-free-b" + std::to_string(B), o, mkscript({{A_(0, 1024), S_(0, 0), A_(1, 600), F_(1)}, {V_(0, 0), F_(0), A_(1, 1024)}}), (size_t)0)); }
 	// H10: four threads on one class (the property speaks of 2-8 threads); bound 1 keeps it small
 	add("H10-four-threads", th ? 2 : 1, mkscript({{A_(0, 1024), F_(0)}, {A_(0, 1024), F_(0)}, {A_(0, 1024), D_(0)}, {A_(0, 600), F_(0)}}));
 	// the pool over the library's own spinlocks (anchor spinlock.hpp): the lock words are scheduling points themselves, so the
